@@ -254,7 +254,13 @@ def register(PROPS, COMPONENTS):
                    "handle-free state has emptied queue and batch and applied every earlier task whenever it holds the shared lock or "
                    "enters its own function, with all outcomes recorded; futures: an outcome is recorded once, never overwritten, "
                    "by the step that ends that task's function under the exclusive lock, with its result or exception, and the client's "
-                   "poll / get events must agree with it." + DF_TIE,
+                   "poll / get events must agree with it. Liveness without any fairness assumption (Proof/DeferredLive.lean, shared-potential "
+                   "form of Base/Live.lean; environment events = the calls, the accesses to the wrapped object by task bodies / load / "
+                   "handle holders, future polls): C06_terminates — no infinite execution with finitely many environment events (every "
+                   "library step lowers 2(|batch|+|queue|) + the summed pc ranks; the drain loop runs exactly the batch it swapped out, "
+                   "C06_drain_bounded); C06_progress / C06_stuck_all_returned / C06_stuck_quiescent — while a thread is inside a call "
+                   "some thread inside a call has an enabled library step, so a state without one has every thread at rest, both "
+                   "mutexes free and no batch." + DF_TIE,
         level_note="Trusted: Lean kernel (+propext, Classical.choice, Quot.sound), the primitive semantics of the mutexes and seq_cst "
                    "atomics, shim + scheduler + driver glue, std::future / packaged_task. The 'next call drains' clause is proved for a "
                    "thread running alone from a quiescent state (see partial).",
@@ -268,7 +274,11 @@ def register(PROPS, COMPONENTS):
                  "without draining, and makes the try_lock of the next caller fail) — best-effort drain, the task is applied by the "
                  "next successful drain; not claimed",
                  "'executed exactly once': at-most-once and conservation are theorems for every reachable state; 'at least once' is "
-                 "the no-stranding safety statement (a liveness claim would need the client to call again)"],
+                 "the no-stranding safety statement (a liveness claim would need the client to call again)",
+                 "termination (C06_terminates) and deadlock-freedom (C06_progress, C06_stuck_all_returned) are proved for every "
+                 "scheduler for executions with finitely many calls and object accesses; NOT proved: that one particular caller is "
+                 "eventually served when others call infinitely often (unfair mutex / scheduler), e.g. a blocking lock_shared "
+                 "against an endless stream of successful modify_* calls"],
     )
 
 
